@@ -20,12 +20,14 @@ _Static_assert(__builtin_offsetof(ctx_t, caught) == __builtin_offsetof(struct vc
 /* setjmp has no body for CBMC: it returns 0 (direct return) only.  glibc maps setjmp to _setjmp. */
 int _setjmp(jmp_buf env) { (void)env; return 0; }
 /* longjmp: exceptional exit.  Control never comes back to the thrower; the handler side is out of reach (DESIGN P10). */
+#ifndef VC_CUSTOM_LONGJMP
 void longjmp(jmp_buf env, int val) {
 	(void)env; (void)val;
 	__CPROVER_assert(g_may_throw, "throw only where the contract under proof admits an error exit");
 	g_thrown = 1;
 	__CPROVER_assume(0);
 }
+#endif
 /* stderr printing / backtrace */
 void err_full_msg(const char *function, const char *file, int line, int error) { (void)function; (void)file; (void)line; (void)error; }
 void err_simple_msg(int error) { (void)error; }
